@@ -228,6 +228,22 @@ func checkC12(w *World, r *Report) {
 						}
 					})
 				}
+				// ... or a named function that is handed the address of the error result
+				if sc := d.Call.StaticCallee(); sc != nil && !stored {
+					if _, isClosure := d.Call.Value.(*ssa.MakeClosure); !isClosure {
+						for ai, a := range d.Call.Args {
+							if !returned[a] || ai >= len(sc.Params) {
+								continue
+							}
+							prm := sc.Params[ai]
+							allInstrs(sc, func(x ssa.Instruction) {
+								if st, ok := x.(*ssa.Store); ok && st.Addr == ssa.Value(prm) && !isConstNil(st.Val) {
+									stored = true
+								}
+							})
+						}
+					}
+				}
 				if !stored {
 					why = "the deferred recover() does not store a non-nil error into the function's error result: the panic is swallowed and the caller sees success"
 				}
@@ -445,11 +461,7 @@ func c12Sizes(w *World, r *Report) {
 		}
 		nuse := 0
 		bad := ""
-		for _, fn := range dnsPkgFuncs(w) {
-			if fn.Pkg != nil && strings.HasSuffix(fn.Pkg.Pkg.Path(), "/commands") {
-				continue // encode/decode of the field itself
-			}
-			// values derived from a load of the field (incl. deref of the *uint32)
+		derivedIn := func(fn *ssa.Function) map[ssa.Value]bool {
 			derived := map[ssa.Value]bool{}
 			changed := true
 			for changed {
@@ -485,6 +497,142 @@ func c12Sizes(w *World, r *Report) {
 					}
 				})
 			}
+			return derived
+		}
+		// boundsTo: are constant lower/upper bounds on the client-supplied size established on every path of fn that reaches `at`?
+		isFieldPtrLoad := func(v ssa.Value) bool {
+			u, ok := v.(*ssa.UnOp)
+			if !ok || u.Op != token.MUL {
+				return false
+			}
+			fa, ok := u.X.(*ssa.FieldAddr)
+			return ok && fieldVarOf(fa) == fld
+		}
+		var boundsTo func(fn *ssa.Function, at ssa.Instruction, depth int, skipNilField bool) (lower, upper bool)
+		boundsTo = func(fn *ssa.Function, at ssa.Instruction, depth int, skipNilField bool) (lower, upper bool) {
+			derived := derivedIn(fn)
+			lower, upper = true, true
+			npaths := 0
+			okp := enumPathsX(fn, nil, nil, func(x ssa.Instruction) bool { return x == at }, sameFieldLoadCond, func(e pathExit) {
+				if e.Stop == nil {
+					return
+				}
+				if skipNilField {
+					// the callee uses the size only where the optional field is present: caller paths on which it is absent do not matter
+					for v, truth := range e.State.Facts {
+						if x, eqNil, ok := nilTest(v); ok && truth == eqNil && isFieldPtrLoad(x) {
+							npaths++
+							return
+						}
+					}
+				}
+				npaths++
+				lo, up := false, false
+				for v, truth := range e.State.Facts {
+					bo, ok := v.(*ssa.BinOp)
+					if !ok {
+						continue
+					}
+					var c int64
+					var op token.Token
+					if derived[bo.X] {
+						cv, isC := constIntVal(bo.Y)
+						if !isC {
+							continue
+						}
+						c, op = cv, bo.Op
+					} else if derived[bo.Y] {
+						cv, isC := constIntVal(bo.X)
+						if !isC {
+							continue
+						}
+						c = cv
+						switch bo.Op {
+						case token.LSS:
+							op = token.GTR
+						case token.GTR:
+							op = token.LSS
+						case token.LEQ:
+							op = token.GEQ
+						case token.GEQ:
+							op = token.LEQ
+						default:
+							op = bo.Op
+						}
+					} else {
+						continue
+					}
+					switch {
+					case (op == token.GTR || op == token.GEQ) && !truth:
+						up = true
+					case (op == token.LSS || op == token.LEQ) && truth:
+						up = true
+					case (op == token.GTR && truth && c >= 0) || (op == token.GEQ && truth && c >= 1):
+						lo = true
+					case (op == token.LSS && !truth && c >= 1) || (op == token.LEQ && !truth && c >= 0):
+						lo = true
+					case op == token.EQL && !truth && c == 0, op == token.NEQ && truth && c == 0:
+						lo = true
+					}
+				}
+				if !lo {
+					lower = false
+				}
+				if !up {
+					upper = false
+				}
+			})
+			if !okp || npaths == 0 {
+				lower, upper = false, false
+			}
+			if (lower && upper) || depth >= 2 {
+				return
+			}
+			// the bounds may have been established by the callers before they handed the request over
+			obj := fnObj(fn)
+			if obj == nil {
+				return
+			}
+			ncall := 0
+			clo, cup := true, true
+			for _, caller := range dnsPkgFuncs(w) {
+				for _, c := range callsIn(caller) {
+					if sCallee(c) != obj || c.Common().IsInvoke() {
+						continue
+					}
+					ci, ok := c.(ssa.Instruction)
+					if !ok {
+						continue
+					}
+					ncall++
+					// does the callee reach `at` only where the optional field is non-nil?
+					needsNonNil := dominatedByCond(fn, at, func(v ssa.Value) bool {
+						x, eqNil, ok := nilTest(v)
+						return ok && !eqNil && isFieldPtrLoad(x)
+					}, true) || dominatedByCond(fn, at, func(v ssa.Value) bool {
+						x, eqNil, ok := nilTest(v)
+						return ok && eqNil && isFieldPtrLoad(x)
+					}, false)
+					l2, u2 := boundsTo(caller, ci, depth+1, needsNonNil)
+					if !l2 {
+						clo = false
+					}
+					if !u2 {
+						cup = false
+					}
+				}
+			}
+			if ncall > 0 {
+				lower = lower || clo
+				upper = upper || cup
+			}
+			return
+		}
+		for _, fn := range dnsPkgFuncs(w) {
+			if fn.Pkg != nil && strings.HasSuffix(fn.Pkg.Pkg.Path(), "/commands") {
+				continue // encode/decode of the field itself
+			}
+			derived := derivedIn(fn)
 			if len(derived) == 0 {
 				continue
 			}
@@ -508,71 +656,7 @@ func c12Sizes(w *World, r *Report) {
 					return
 				}
 				nuse++
-				lower, upper := true, true
-				npaths := 0
-				okp := enumPathsX(fn, nil, nil, func(x ssa.Instruction) bool { return x == in }, sameFieldLoadCond, func(e pathExit) {
-					if e.Stop == nil {
-						return
-					}
-					npaths++
-					lo, up := false, false
-					for v, truth := range e.State.Facts {
-						bo, ok := v.(*ssa.BinOp)
-						if !ok {
-							continue
-						}
-						var c int64
-						var op token.Token
-						if derived[bo.X] {
-							cv, isC := constIntVal(bo.Y)
-							if !isC {
-								continue
-							}
-							c, op = cv, bo.Op
-						} else if derived[bo.Y] {
-							cv, isC := constIntVal(bo.X)
-							if !isC {
-								continue
-							}
-							c = cv
-							switch bo.Op {
-							case token.LSS:
-								op = token.GTR
-							case token.GTR:
-								op = token.LSS
-							case token.LEQ:
-								op = token.GEQ
-							case token.GEQ:
-								op = token.LEQ
-							default:
-								op = bo.Op
-							}
-						} else {
-							continue
-						}
-						switch {
-						case (op == token.GTR || op == token.GEQ) && !truth:
-							up = true
-						case (op == token.LSS || op == token.LEQ) && truth:
-							up = true
-						case (op == token.GTR && truth && c >= 0) || (op == token.GEQ && truth && c >= 1):
-							lo = true
-						case (op == token.LSS && !truth && c >= 1) || (op == token.LEQ && !truth && c >= 0):
-							lo = true
-						case op == token.EQL && !truth && c == 0, op == token.NEQ && truth && c == 0:
-							lo = true
-						}
-					}
-					if !lo {
-						lower = false
-					}
-					if !up {
-						upper = false
-					}
-				})
-				if !okp || npaths == 0 {
-					lower, upper = false, false
-				}
+				lower, upper := boundsTo(fn, in, 0, false)
 				if !upper {
 					bad = fmt.Sprintf("%s: a client-supplied size reaches an %s without a constant upper bound (2^32-1 requests a 4 GiB allocation per query)", w.Pos(in.Pos()), what)
 				} else if !lower && what != "allocation size" {
